@@ -183,7 +183,7 @@ class CompilerBase(ABC):
                                 q_index,
                                 classical_registers,
                             )
-                            tmp_noise = [op.noise[0], nm.NoNoise]
+                            tmp_noise = [noise_copy[0], nm.NoNoise]
 
                             op.noise = tmp_noise
                             self._apply_additional_noise(
@@ -205,7 +205,7 @@ class CompilerBase(ABC):
                                 classical_registers,
                             )
 
-                            tmp_noise = [nm.NoNoise, op.noise[1]]
+                            tmp_noise = [nm.NoNoise, noise_copy[1]]
                             op.noise = tmp_noise
                             self._apply_additional_noise(
                                 state, op, circuit.n_quantum, q_index
